@@ -514,8 +514,9 @@ std::string sqf::parser::preprocessor::impl_default::instance::handle_arg(::sqf:
                 auto res = try_get_macro(word);
                 if (res.has_value())
                 {
-                    if (res.value().is_callable())
-                    {
+                    if (res.value().is_callable() && !part_of_word)
+                    { // give back the character that ended the word (it may be the opening bracket); a word that
+                      // reaches the end of the argument was not followed by anything that could be given back
                         local_fileinfo.move_back();
                     }
                     auto handled = handle_macro(runtime, local_fileinfo, original_fileinfo, res.value(), param_map);
